@@ -341,6 +341,16 @@ impl<const NS: usize, const L: usize> ByeCfg<NS, L> {
         }
         b
     }
+    /// The same configuration reached through `reason_owned`, called after the other setters.
+    pub fn builder_owned(&self) -> ByeBuilder<'static> {
+        let mut b = Bye::builder().padding(self.padding);
+        let mut i = 0;
+        while i < NS {
+            b = b.add_source(self.sources[i]);
+            i += 1;
+        }
+        b.reason_owned(self.reason.as_str().to_owned())
+    }
     pub fn valid(&self) -> bool {
         NS <= 31 && padding_ok(self.padding) && self.reason.len <= 255
     }
